@@ -19,6 +19,44 @@ Proof.
     intros [= H]. now apply (Unsigned.to_uint_nonnil p).
 Qed.
 
+(* ---------- strings ---------- *)
+Section Strings.
+Local Open Scope nat_scope.
+Lemma hexval_hexdigit k : k < 16 -> hexval (hexdigit k) = Some k.
+Proof.
+  intros H. do 16 (destruct k as [|k]; [reflexivity|]). lia.
+Qed.
+
+Lemma printable_not_special c : printable c = true -> Ascii.eqb c dq = false /\ Ascii.eqb c bs = false.
+Proof.
+  unfold printable. intros H. repeat (apply andb_true_iff in H; destruct H as [H ?]).
+  apply negb_true_iff, Nat.eqb_neq in H0. apply negb_true_iff, Nat.eqb_neq in H1.
+  split; apply Ascii.eqb_neq; intros ->; [apply H1|apply H0]; reflexivity.
+Qed.
+
+Lemma unquote_quote x : unquote_body (quote_body x ++ [dq]) = Some x.
+Proof.
+  induction x as [|c r IH]; [reflexivity|].
+  cbn [quote_body]. destruct (printable c) eqn:Hp.
+  - destruct (printable_not_special c Hp) as [H1 H2].
+    cbn [app unquote_body]. rewrite H1, H2, IH. reflexivity.
+  - set (n := nat_of_ascii c).
+    assert (Hn : n < 256) by apply nat_ascii_bounded.
+    cbn [app unquote_body].
+    change (Ascii.eqb bs dq) with false. change (Ascii.eqb bs bs) with true.
+    change (Ascii.eqb "x"%char "x"%char) with true. cbn iota.
+    rewrite !hexval_hexdigit.
+    + rewrite IH. cbn [option_map].
+      replace (16 * (n / 16) + n mod 16) with n by (rewrite <- Nat.div_mod_eq; reflexivity).
+      unfold n. rewrite ascii_nat_embedding. reflexivity.
+    + apply Nat.mod_upper_bound. lia.
+    + apply Nat.div_lt_upper_bound; lia.
+Qed.
+
+Theorem parse_print_str x : parse_str (print_str x) = Some x.
+Proof. unfold parse_str, print_str. change (Ascii.eqb dq dq) with true. cbn iota. apply unquote_quote. Qed.
+End Strings.
+
 (* ---------- fractions ---------- *)
 Lemma req_iff x y : req x y = true <-> fst x * snd y = fst y * snd x.
 Proof. unfold req. apply Z.eqb_eq. Qed.
@@ -282,7 +320,7 @@ Proof.
   destruct (y_pname_cases p (d_name d)) as [[Hc _]|[_ Hq]]; [congruence|]. rewrite Hq.
   destruct v as [b|x|z|a den|e]; cbn [y_const].
   - rewrite denote_ident_own, Hobj. cbn. apply eqb_reflx.
-  - cbn. apply str_eqb_refl.
+  - cbn [denote_val]. rewrite parse_print_str. cbn. apply str_eqb_refl.
   - cbn [denote_val]. rewrite parse_print_Z. cbn. apply Z.eqb_refl.
   - cbn [const_side] in Hside. apply andb_true_iff in Hside. destruct Hside as [Hd Hs].
     destruct (fix_float a den) as [r|] eqn:Ef; [|discriminate].
@@ -426,6 +464,17 @@ Proof.
   destruct (d_obj d) as [u v|g| |al g i]; try reflexivity.
   destruct g; [reflexivity|]. destruct i; [|reflexivity].
   apply andb_true_iff in H. apply H.
+Qed.
+
+(** the evaluator used by the correspondence computes [y_emit] *)
+Lemma flat_map_map_pair {A B C} (c : A -> B) (g : A * B -> list C) l :
+  flat_map g (map (fun d => (d, c d)) l) = flat_map (fun d => g (d, c d)) l.
+Proof. induction l as [|x l IH]; [reflexivity|]. cbn. now rewrite IH. Qed.
+
+Lemma y_emit_fast_eq p : y_emit_fast p = y_emit p.
+Proof.
+  unfold y_emit_fast, y_emit, y_rows, y_contribs, vals_of, typs_of, wraps_of, wrapped_of, y_vals, y_typs, y_wraps, y_wrapped.
+  rewrite !flat_map_map_pair. reflexivity.
 Qed.
 
 (* ================================================================== *)
